@@ -56,7 +56,7 @@ def stages_for(replay, tier, extra=None):
         g("V5", replay, "V5", decor="ops", leafs="V5_Leafs", inlines="V5_Inlines", dirs="V5_Dirs", frags="FragsF",
           spread="SpreadAny", maxsel=2, maxnodes=3, maxdepth=2, extra=extra),
         v1("V1_1f", replay, 1, 2, "{1,2,3,4,5,6,7,8}", extra=extra),                        # 1 225
-        v1("V1_2f", replay, 2, 3, "{1,2,3,4,5,6,7,8}", timeout=3000, extra=extra),          # 357 911
+        v1("V1_2f", replay, 2, 3, "{1,2,3,5,6,7}", timeout=3000, extra=extra),              # 166 375
         v1("V1_2f_QM", replay, 2, 2, "{1,2,5,7}", types='{"Q","M"}', extra=extra),          # 28 899
         v1("V1_3f", replay, 3, 3, "{1,2}", timeout=3000, extra=extra),                      # 279 841
         v1("V1_nest", replay, 2, 2, "{11,12,15}", types='{"O"}', shape="nested", extra=extra),
